@@ -70,7 +70,7 @@ var testNames = []string{"TestA", "TestAB", "TestA1", "Test1", "TestB", "TestSub
 
 func framingString(r *scen.Rand, av Avoid) string {
 	for {
-		k := r.Intn(19)
+		k := r.Intn(20)
 		switch k {
 		case 0:
 			return "---"
@@ -93,6 +93,9 @@ func framingString(r *scen.Rand, av Avoid) string {
 		case 16:
 			// a blank line right before a header-like line, as inside a stored snapshot file
 			return plainLine(r) + "\n\n" + fmt.Sprintf("[%s - %d]", headerName(r, av), 1+r.Intn(3)) + "\n" + plainLine(r) + "\n---\n"
+		case 19:
+			// one long line of mostly multi-byte characters with one ASCII letter in the middle
+			return strings.Repeat("é", 2500+r.Intn(50)) + "A" + strings.Repeat("ü", 2500)
 		case 17:
 			// terminal output: colour sequences are bytes like any other
 			return "\x1b[31m" + plainLine(r) + "\x1b[0m"
@@ -276,6 +279,9 @@ func mutateString(r *scen.Rand, s string, av Avoid, multi bool) string {
 			}
 		}
 		kind := r.Intn(12)
+		if len(s) > 4096 && strings.Contains(s, "éA") && r.Bool(0.7) {
+			return strings.Replace(s, "éA", "éB", 1) // the one ASCII letter after thousands of multi-byte characters
+		}
 		if strings.Contains(s, "\x1b[") && r.Bool(0.5) {
 			// only the colour changes
 			if strings.Contains(s, "\x1b[31m") {
